@@ -394,11 +394,17 @@ func fieldVal(c *config.Config, name string) string {
 	return render(reflect.ValueOf(c).Elem().FieldByName(name))
 }
 
+// srcOf maps the specification's source numbers (priority order of the statement: 1 global datastore,
+// 2 per-selector, 3 per-host, 4 config file, 5 environment, 6 internal override) to the package's
+// named constants.
+var srcOf = []config.Source{config.Default, config.DatastoreGlobal, config.DatastorePerSelector, config.DatastorePerHost,
+	config.ConfigFile, config.EnvironmentVariable, config.InternalOverride}
+
 func doOne(c *config.Config, p *pinfo, src int, raw []kv) stepT {
 	if raw == nil {
 		raw = []kv{}
 	}
-	changed, err := c.UpdateFrom(toMap(raw), config.Source(src))
+	changed, err := c.UpdateFrom(toMap(raw), srcOf[src])
 	return stepT{API: "one", Sets: []setT{{src, raw}}, Err: err != nil, ErrField: c.Err != nil,
 		Val: fieldVal(c, p.Name), Changed: changed}
 }
@@ -406,7 +412,7 @@ func doOne(c *config.Config, p *pinfo, src int, raw []kv) stepT {
 func doAll(c *config.Config, p *pinfo, sets []setT) stepT {
 	msg := &proto.ConfigUpdate{SourceToRawConfig: map[uint32]*proto.RawConfig{}}
 	for _, s := range sets {
-		msg.SourceToRawConfig[uint32(s.Src)] = &proto.RawConfig{Source: config.Source(s.Src).String(), Config: toMap(s.Raw)}
+		msg.SourceToRawConfig[uint32(srcOf[s.Src])] = &proto.RawConfig{Source: srcOf[s.Src].String(), Config: toMap(s.Raw)}
 	}
 	changed, err := c.UpdateFromConfigUpdate(msg)
 	return stepT{API: "all", Sets: sets, Err: err != nil, ErrField: c.Err != nil,
@@ -577,7 +583,7 @@ func main() {
 	}
 	thin := 8
 	if mode == "all" {
-		thin = 16
+		thin = 32
 	}
 	reps2, _ := strconv.Atoi(os.Getenv("VERIF_C27_DUPREPS"))
 	if reps2 == 0 {
